@@ -49,7 +49,7 @@ CHECK_DEADLOCK FALSE
 
 
 def laws(ctx):
-    q = "QAll" if ctx.tier == "thorough" else "QFew"
+    q = "QMid" if ctx.tier == "thorough" else "QFew"
     ctx.tlc_ok("NearestMC", LAWS_CFG % q, what="laws of the exact nearest order on the |c|<=1 lattice + 4 longer vectors, all 3-element sets, queries %s" % q, workers=8, timeout=1500)
 
 
@@ -93,7 +93,8 @@ def tree_model(ctx):
     if ctx.tier == "thorough":
         scopes += [(["ball"], 4), (["kd"], 4)]
     for trees, depth in scopes:
-        ctx.tlc_ok("TreeCache", tc_cfg(trees, "MechIntended", depth, False, ["TypeOK", "HandBack", "Coherent", "Rebuilt", "StableHandle"]), what="intended mechanism: HandBack, Coherent, Rebuilt, StableHandle; %s, depth %d" % ("+".join(trees), depth))
+        if depth <= 3:
+            ctx.tlc_ok("TreeCache", tc_cfg(trees, "MechIntended", depth, False, ["TypeOK", "HandBack", "Coherent", "Rebuilt", "StableHandle"]), what="intended mechanism: HandBack, Coherent, Rebuilt, StableHandle; %s, depth %d" % ("+".join(trees), depth))
         ctx.tlc_ok("TreeCache", tc_cfg(trees, "MechObserved", depth, False, ["TypeOK", "HandBack", "Coherent", "Rebuilt"]), what="mechanism as transcribed from the code: HandBack, Coherent, Rebuilt; %s, depth %d" % ("+".join(trees), depth))
     # the two ways the mechanism is expected to fall short / did fall short: TLC must find them
     r = ctx.tlc("TreeCache", tc_cfg(both, "MechObserved", 3, False, ["StableHandle"]), what="observed mechanism: StableHandle (expected to be refuted: the handle is the cached object)", count=False)
@@ -365,17 +366,21 @@ def histories(ctx, rng):
     thorough = ctx.tier == "thorough"
     hs = []
     if thorough:
-        hs += gen_histories(ctx, ["ball"], 3)
-        hs += gen_histories(ctx, ["kd"], 3)
-        hs += gen_histories(ctx, ["ball", "kd"], 6, simulate="num=3000", depth=7, seed=ctx.seed + 11)
-        ctx.exhaustive = True
+        hs += gen_histories(ctx, ["ball", "kd"], 2)  # every history of length <= 2, both trees, full alphabet
+        hs += gen_histories(ctx, ["ball", "kd"], 3, shape="recentre_mid")  # request, construct_face_centers, request: full alphabet
+        # every history of length 3 per tree is generated (with its predictions); a seeded sample of each is replayed
+        b3 = gen_histories(ctx, ["ball"], 3)
+        k3 = gen_histories(ctx, ["kd"], 3)
+        ctx.note("length3_histories_generated(ball, kd)", [len(b3), len(k3)])
+        hs += rng.sample(b3, min(len(b3), 9000)) + rng.sample(k3, min(len(k3), 7000))
+        hs += gen_histories(ctx, ["ball", "kd"], 6, simulate="num=2000", depth=7, seed=ctx.seed + 11)[:2000]
     else:
         hs += gen_histories(ctx, ["ball", "kd"], 2)  # every history of length <= 2, both trees, full alphabet
         hs += gen_histories(ctx, ["ball", "kd"], 3, shape="recentre_mid")  # request, construct_face_centers, request: full alphabet
         hs += gen_histories(ctx, ["ball"], 3, recs="FALSE")
         k3 = gen_histories(ctx, ["kd"], 3, recs="FALSE")
         hs += rng.sample(k3, min(len(k3), 1200))
-        hs += gen_histories(ctx, ["ball", "kd"], 5, simulate="num=300", depth=6, seed=ctx.seed + 11)
+        hs += gen_histories(ctx, ["ball", "kd"], 5, simulate="num=300", depth=6, seed=ctx.seed + 11)[:400]
     # de-duplicate (simulation can repeat; the mixed length-2 run contains the single-tree ones)
     seen = set()
     uniq = []
@@ -848,11 +853,11 @@ def choose_grids(rng, thorough):
     names = sorted({e["name"] for e in catalog.entries()})
     out = []
     for nm in names:
-        rots = [0] + rng.sample(range(1, 25), 3 if thorough else 1)
+        rots = [0] + rng.sample(range(1, 25), 2 if thorough else 1)
         for r in rots:
             cuts = [0] if r else [0, 3]
             if thorough and r:
-                cuts = [0, rng.choice([2, 3, 5])]
+                cuts = [rng.choice([0, 2, 3, 5])]
             for c in cuts:
                 es = catalog.entries(name=nm, rot=r, cut=c)
                 if es:
@@ -875,7 +880,7 @@ def choose_grids(rng, thorough):
 def queries(ctx, rng):
     thorough = ctx.tier == "thorough"
     grids = choose_grids(rng, thorough)
-    nq = 28 if thorough else 10
+    nq = 16 if thorough else 10
     K = 3 if thorough else 2
     ga = pmap(grid_plan, grids)
     groups = []
